@@ -61,6 +61,12 @@ META = {
     "C20": dict(engine="pipegen+alloccount", technique="runtime monitoring: global operator new counter between two points of single-threaded runs; per-program step budget from the interpreter; allocation tables over input counts",
                 text="Held on everything measured: allocations <= steps for every generated pipeline; constant count per combinator/policy/form for n=2..64; zero for waits, Get, Strand submission, co_await.",
                 note="Counts are taken at -O0 (upper bound) and -O2, C++20 and C++17.", ref="DESIGN.md §3 C20"),
+    "C03": dict(engine="fiberx+pipegen+rt", technique="runtime monitoring: tracked-object registry (canary, live count), ASan/UBSan/LSan, operator new/delete balance at quiescence with deterministic re-run confirmation, over all fiber scenario families; complete k-th-Submit rejection enumeration on generated pipelines under ASan; real-thread ASan pass",
+                text="Held on everything explored: every scenario family (handles dropped at every stage the scenarios reach, throwing callbacks, combinators, Stop/HardStop with queued steps, coroutines on stopped executors) ends with the three lifecycle oracles; rejection points are enumerated completely per generated program.",
+                note="ASan red zones/quarantine limits apply; fiber stack pool and scheduler containers are excluded by the repeat-run rule.", ref="DESIGN.md §3 C03", category="fault_enumeration"),
+    "C04": dict(engine="rt (TSan)", technique="ThreadSanitizer (gcc, __tsan_on_report) on real threads with injected delays at every synchronisation point, plain payloads whose only ordering edge is the library, relaxed-atomic monitors",
+                text="Held on the executions observed: all eight scenario families (future/promise hand-off, executors, strand, pool, combinators, waits, SharedFuture, WaitGroup, coroutine Mutex/SharedMutex, coroutines) under TSan, thousands (quick) to hundreds of thousands (thorough) of cases.",
+                note="No happens-before race on observed x86 executions; not a proof for weak memory models.", ref="DESIGN.md §3 C04"),
 }
 
 ALL = ["C%02d" % i for i in range(1, 21)]
